@@ -11,7 +11,7 @@ VARIABLES hist, fin
 GenInit == Init /\ hist = <<[act |-> "init", disk |-> disk]>> /\ fin = FALSE
 \* COMMIT and ROLLBACK get weight (several copies distinguished by k) so that procedures cross several
 \* transaction boundaries; failing statements are generated only near the end (they end the run)
-ScriptActions == {a \in GenActs : a.act \notin {"env", "disk"}}
+ScriptActions == {a \in GenActs : a.act \notin {"env", "disk", "selectpath", "insertpath"}}   \* (path spellings need the directory: in-process runs only)
                  \cup {A(x, "", w, 0) : x \in {"commit", "rollback"}, w \in 1..Weight}
                  \cup {A("select", t, w, 0) : t \in Tables, w \in 1..2}
 GenNext ==
